@@ -13,9 +13,10 @@ import (
 // produces them (extent i starts at file block = sum of the previous counts, count >= 1, disk
 // ranges pairwise disjoint), covering at least ceil(size/blocksize) blocks.
 
-// c04PatDev is a device whose byte at offset x is byte(x) and which records every ReadAt
-// (offset, length). Together with the exact assertion on the recorded offsets the 8-bit pattern
-// decides the placement of the copied bytes.
+// c04PatDev records every ReadAt (offset, length) and answers call k with the bytes k*64+0,
+// k*64+1, ...: the harness asserts (a) that every call reads exactly the device range the extent
+// list maps the next file positions to and (b) that the caller's buffer is the concatenation of
+// the answers (lengths of a Read stay below 64, at most 4 calls).
 type c04PatDev struct {
 	vpdev.MemDev
 	rOff []int64
@@ -25,7 +26,8 @@ type c04PatDev struct {
 func (d *c04PatDev) ReadAt(p []byte, off int64) (int, error) {
 	d.rOff = append(d.rOff, off)
 	d.rLen = append(d.rLen, len(p))
-	vp.FillFunc(p, func(i int) byte { return byte(off + int64(i)) })
+	k := len(d.rOff) - 1
+	vp.FillFunc(p, func(i int) byte { return byte(k<<6 + i) })
 	return len(p), nil
 }
 
@@ -36,7 +38,7 @@ func c04Ext(k int, maxCount uint16, maxStart uint64, disjoint bool) (extents, ui
 	names := [][2]string{{"c0", "s0"}, {"c1", "s1"}, {"c2", "s2"}, {"c3", "s3"}}
 	for i := 0; i < k; i++ {
 		c := vp.U16(names[i][0])
-		s := vp.U64(names[i][1])
+		s := uint64(vp.U32(names[i][1]))
 		vp.Assume(c >= 1)
 		vp.Assume(c <= maxCount)
 		vp.Assume(s >= 1)
@@ -70,6 +72,21 @@ func c04DiskPos(es extents, bs int64, p int64) int64 {
 	return r
 }
 
+// c04ExtEnd is the file position at which the extent containing file position p ends (-1: none).
+func c04ExtEnd(es extents, bs int64, p int64) int64 {
+	var r int64 = -1
+	for i := range es {
+		lo := int64(es[i].fileBlock) * bs
+		hi := lo + int64(es[i].count)*bs
+		in := p >= lo
+		if p >= hi {
+			in = false
+		}
+		r = vp.IteI64(in, hi, r)
+	}
+	return r
+}
+
 func c04File(dev backend.Storage, bs uint32, es extents, size uint64, off int64, rw bool) *File {
 	fsys := &FileSystem{superblock: &superblock{blockSize: bs}, backend: dev}
 	return &File{
@@ -88,18 +105,17 @@ func c04File(dev backend.Storage, bs uint32, es extents, size uint64, off int64,
 // specification maps it to.
 func c04ReadMap(k int, bs uint32, maxCount uint16, maxStart uint64, maxLen int) {
 	es, blocks := c04Ext(k, maxCount, maxStart, false)
-	size := vp.U64("size")
+	size := uint64(vp.U32("size"))
 	vp.Assume(size <= blocks*uint64(bs)) // extents cover the file
-	off := vp.I64("off")
-	vp.Assume(off >= 0)
+	off := int64(vp.U32("off"))
 	vp.Assume(off <= int64(size)+int64(bs))
-	n := vp.Int("len")
-	vp.Assume(n >= 0)
+	n := int(vp.U8("len"))
 	vp.Assume(n <= maxLen)
 	dev := &c04PatDev{}
 	dev.NoWrites = true
 	fl := c04File(dev, bs, es, size, off, false)
 	vp.AllocCap(maxLen)
+	vp.Unwind(maxLen + 8)
 	buf := make([]byte, n)
 	vp.KnownPanic("KF-C04-2", "ext4/file.go:73")
 	vp.NoPanic()
@@ -132,14 +148,24 @@ func c04ReadMap(k int, bs uint32, maxCount uint16, maxStart uint64, maxLen int) 
 		l := int64(dev.rLen[c])
 		if l > 0 {
 			vp.Assert(dev.rOff[c] == c04DiskPos(es, int64(bs), pos), "device read starts where the extent list maps the file position")
-			vp.Assert(dev.rOff[c]+l-1 == c04DiskPos(es, int64(bs), pos+l-1), "device read stays inside one extent")
+			vp.Assert(pos+l <= c04ExtEnd(es, int64(bs), pos), "device read stays inside one extent")
 		}
 		pos += l
 	}
 	vp.Assert(pos == off+int64(got), "bytes delivered = bytes read from the device")
 	for j := 0; j < maxLen; j++ {
 		if j < got {
-			vp.Assert(buf[j] == byte(c04DiskPos(es, int64(bs), off+int64(j))), "delivered byte = device byte the extent list maps the position to")
+			var want byte
+			st := 0
+			for c := range dev.rLen {
+				in := j >= st
+				if j >= st+dev.rLen[c] {
+					in = false
+				}
+				want = vp.IteU8(in, byte(c<<6+(j-st)), want)
+				st += dev.rLen[c]
+			}
+			vp.Assert(buf[j] == want, "buffer = concatenation of the device reads in order")
 		}
 	}
 	if int64(got) == want {
@@ -155,10 +181,79 @@ func c04ReadMap(k int, bs uint32, maxCount uint16, maxStart uint64, maxLen int) 
 	}
 }
 
-func VP_C04_read_map_k1() { c04ReadMap(1, 4, 3, 1<<40, 16) }
-func VP_C04_read_map_k2() { c04ReadMap(2, 4, 3, 1<<40, 20) }
-func VP_C04_read_map_k3() { c04ReadMap(3, 4, 2, 1<<40, vp.Bound("readlen3", 16, 28)) }
+func VP_C04_read_map_k1() { c04ReadMap(1, 4, 3, 1<<31, 8) }
+func VP_C04_read_map_k2() { c04ReadMap(2, 4, 2, 1<<31, 8) }
+func VP_C04_read_map_k3() { c04ReadMap(3, 2, 2, 1<<31, vp.Bound("readlen3", 6, 10)) }
 
 // real block sizes, arbitrary extent sizes / positions, short reads (arithmetic at scale)
-func VP_C04_read_map_1k() { c04ReadMap(2, 1024, 32768, 1<<32, 8) }
-func VP_C04_read_map_4k() { c04ReadMap(3, 4096, 32768, 1<<32, 6) }
+func VP_C04_read_map_1k() { c04ReadMap(2, 1024, 32768, 1<<31, 4) }
+func VP_C04_read_map_4k() { c04ReadMap(3, 4096, 32768, 1<<31, 3) }
+
+// c04WriteMap: one Write call that stays inside the file (size unchanged, nothing to allocate):
+// the bytes land at the device offsets the extent list maps the positions to, nothing else is
+// written, the count is len(b) and the handle offset advances.
+func c04WriteMap(k int, bs uint32, maxCount uint16, maxStart uint64, maxLen int) {
+	es, blocks := c04Ext(k, maxCount, maxStart, true)
+	size := uint64(vp.U32("size"))
+	vp.Assume(size <= blocks*uint64(bs))
+	off := int64(vp.U32("off"))
+	n := int(vp.U8("len"))
+	vp.Assume(n <= maxLen)
+	vp.Assume(off+int64(n) <= int64(size)) // overwrite inside the file
+	dev := vpdev.NewMemDev("disk", -1)
+	fl := c04File(dev, bs, es, size, off, true)
+	vp.AllocCap(maxLen)
+	vp.Unwind(maxLen + 8)
+	data := make([]byte, n)
+	vp.Fill(data, "data")
+	vp.KnownPanic("KF-C04-3", "ext4/file.go:198")
+	vp.NoPanic()
+	got, err := fl.Write(data)
+	vp.AllowPanic()
+	// KF-C04-4: after the last byte is written the loop goes on to the following extents with an
+	// empty slice at device offset start*bs-(distance to the end of the write), which is negative
+	// (rejected by the device) when that extent lies at a low disk block
+	end := off + int64(n)
+	kf4 := false
+	for i := range es {
+		lo := int64(es[i].fileBlock) * int64(bs)
+		if lo > end {
+			if int64(es[i].startingBlock)*int64(bs) < lo-end {
+				kf4 = true
+			}
+		}
+	}
+	vp.AssertUnless("KF-C04-4", kf4, err == nil, "overwrite inside a well-formed file succeeds")
+	vp.Assert(got == n, "Write reports len(b) bytes written")
+	vp.Assert(fl.offset == off+int64(n), "handle offset advances by the bytes written")
+	vp.Assert(fl.size == size, "size unchanged by an overwrite inside the file")
+	pos := off
+	for c := range dev.Log {
+		w := dev.Log[c]
+		l := int64(w.Len)
+		if l > 0 {
+			vp.Assert(w.Off == c04DiskPos(es, int64(bs), pos), "device write starts where the extent list maps the file position")
+			vp.Assert(pos+l <= c04ExtEnd(es, int64(bs), pos), "device write stays inside one extent")
+			for j := 0; j < maxLen; j++ {
+				if int64(j) < l {
+					vp.Assert(w.Data[j] == data[int(pos-off)+j], "device receives the caller's bytes in order")
+				}
+			}
+		}
+		pos += l
+	}
+	vp.Assert(pos == off+int64(n), "every byte of b reaches the device exactly once")
+	if n > int(bs) {
+		vp.Cover("write longer than a block")
+	}
+	if len(dev.Log) >= 2 {
+		vp.Cover("write split over extents")
+	}
+	vp.Cover("overwrite done")
+}
+
+func VP_C04_write_map_k1() { c04WriteMap(1, 4, 3, 1<<31, 8) }
+func VP_C04_write_map_k2() { c04WriteMap(2, 4, 2, 1<<31, 8) }
+func VP_C04_write_map_k3() { c04WriteMap(3, 2, 2, 1<<31, vp.Bound("writelen3", 6, 10)) }
+func VP_C04_write_map_1k() { c04WriteMap(2, 1024, 32768, 1<<31, 4) }
+func VP_C04_write_map_4k() { c04WriteMap(3, 4096, 32768, 1<<31, 3) }
